@@ -701,24 +701,33 @@ enum GapPollResponse {
 
 impl FdlActiveStation {
     fn next_gap_poll(&self, current_address: crate::Address) -> GapState {
+        let hsa = self.p.highest_station_address;
+        let this_station = self.p.address;
         let next_station = self.token_ring.next_station();
-        let next_address = if current_address == (self.p.highest_station_address - 1) {
+        let next_address = if current_address >= (hsa - 1) {
             0
         } else {
             current_address + 1
         };
 
-        if next_address >= next_station && next_station > self.p.address {
+        // Cyclic distance from our own address in the address space below HSA.
+        let distance = |addr: crate::Address| {
+            if addr >= this_station {
+                addr - this_station
+            } else {
+                addr + (hsa - this_station)
+            }
+        };
+        // The GAP ends right before NS.  When there is no other station (NS==TS) or NS lies
+        // outside the HSA range, the GAP spans all other addresses below HSA.
+        let gap_end = if next_station == this_station || next_station >= hsa {
+            hsa
+        } else {
+            distance(next_station)
+        };
+
+        if next_address == this_station || distance(next_address) >= gap_end {
             // We have reached the end of the GAP, enter waiting state.
-            GapState::Waiting { rotation_count: 0 }
-        } else if next_address == next_station && next_station == self.p.address {
-            // We have reached the end of the GAP, enter waiting state (NS==TS case).
-            GapState::Waiting { rotation_count: 0 }
-        } else if next_address >= next_station
-            && next_station < self.p.address
-            && next_address < self.p.address
-        {
-            // We have reached the end of the GAP, enter waiting state (wrap-around GAP case).
             GapState::Waiting { rotation_count: 0 }
         } else {
             GapState::DoPoll {
